@@ -93,12 +93,55 @@ def make_payload(rng, ptype, kind, big):
     return valid_looking(rng, ptype)
 
 
+CIPHER_FAMILIES = {
+    "ctr": ["aes128-ctr", "aes192-ctr", "aes256-ctr"],
+    "cbc": ["aes128-cbc", "aes256-cbc", "3des-cbc"],
+    "gcm": ["aes128-gcm@openssh.com", "aes256-gcm@openssh.com"],
+}
+
+
+def negotiated_strict(rec, role):
+    """Strict kex as negotiated on the wire: both first KEXINITs carry the other side's marker."""
+    def kexlist(side):
+        for e in rec.snapshot():
+            if e.get("kind") == "msg" and e["side"] == side and e["dir"] == "out" and e["type"] == 20:
+                p = e["payload"]
+                n = int.from_bytes(p[17:21], "big")
+                return p[21:21 + n].split(b",")
+        return []
+
+    a, v = kexlist("a"), kexlist("v")
+    cl, sv = (a, v) if role == "client" else (v, a)
+    return b"kex-strict-c-v00@openssh.com" in cl and b"kex-strict-s-v00@openssh.com" in sv
+
+
+def sender_seq(rec, ev_n, strict):
+    """Sequence number of the attacker's packet recorded as event `ev_n`, counted independently of any
+    packetizer counter: packets the attacker put on the wire, restarting after each of its NEWKEYS when
+    strict kex was negotiated (RFC 4253 6.4 + OpenSSH strict-kex extension)."""
+    c = 0
+    for e in rec.snapshot():
+        if e.get("kind") == "msg" and e["side"] == "a" and e["dir"] == "out":
+            if e["n"] == ev_n:
+                return c
+            c = 0 if (strict and e["type"] == 21) else (c + 1) & 0xFFFFFFFF
+    return None
+
+
 class Session:
     """One attacker<->victim connection, reused until the victim dies."""
 
-    def __init__(self, ctx, role):
+    def __init__(self, ctx, role, family=None, strict=True):
         self.role = role
-        self.att = attacker.Attacker(role, rng=ctx.rng)
+        self.cell = None
+        kw = {}
+        if family is not None:
+            import paramiko
+
+            allowed = [ctx.rng.choice(CIPHER_FAMILIES[family])]
+            kw = dict(disabled_algorithms=dict(ciphers=[c for c in paramiko.Transport._preferred_ciphers if c not in allowed]),
+                      strict_kex=strict)
+        self.att = attacker.Attacker(role, rng=ctx.rng, victim_kw=dict(kw), attacker_kw=dict(kw))
         ok = self.att.start(auth=True, timeout=60)
         self.ok = ok
         if ok:
@@ -171,11 +214,17 @@ def run_case(ctx, sess, ptype, kind, payload, named):
             ctx.inconclusive("victim never read the crafted packet (type %d)" % ptype)
         sess.dead = True
         return
-    seq_in = vin[0]["seq"]
-    if sent_seq is not None and sent_seq != seq_in:
-        ctx.inconclusive("attacker out-seq %r != victim in-seq %r: taps disagree" % (sent_seq, seq_in))
+    # the reference is the number of that packet *as counted by the sender*, computed from the order of the
+    # attacker's packets on the wire (not from either side's packetizer counter)
+    mine_out = [e for e in att.rec.snapshot() if e.get("kind") == "msg" and e["side"] == "a" and e["dir"] == "out"
+                and e["n"] >= mark and e["type"] == ptype and e["payload"] == bytes([ptype]) + payload]
+    seq_in = sender_seq(att.rec, mine_out[0]["n"], negotiated_strict(att.rec, sess.role)) if mine_out else None
+    if seq_in is None:
+        ctx.inconclusive("could not locate the crafted packet in the attacker's tap")
         sess.dead = True
         return
+    if vin[0]["seq"] != seq_in:
+        ctx.count("victim_inbound_counter_differs_from_sender_count")
     # replies: everything the victim sent after reading the packet, minus the one answer to the probe
     replies = [e for e in vout if e["n"] > vin[0]["n"]]
     probe_answers = [e for e in replies if e["type"] in (81, 82)]
@@ -217,6 +266,8 @@ def run_case(ctx, sess, ptype, kind, payload, named):
         return
     body = unimpl[0]["payload"]
     ctx.count("reply_seqno_compared")
+    if sess.cell:
+        ctx.count("cell_%s_seq_compared" % sess.cell)
     if len(body) != 5 or struct.unpack(">I", body[1:5])[0] != seq_in:
         got = struct.unpack(">I", body[1:5])[0] if len(body) >= 5 else None
         rel = "malformed" if got is None else ("its own outbound counter" if got == unimpl[0]["seq"] else "off by %d" % (got - seq_in))
@@ -394,6 +445,78 @@ def run_rekey_session(ctx, role, trigger):
         att.close()
 
 
+def run_cipher_cells(ctx):
+    """cipher family x {strict, non-strict} x {before, after a re-key} x victim role: the UNIMPLEMENTED reply must
+    quote the sender-side packet count in every cell."""
+    import threading
+
+    cells = [(role, fam, strict, phase) for role in ("client", "server") for fam in ("ctr", "cbc", "gcm")
+             for strict in (True, False) for phase in ("before", "after")]
+    reps = ctx.pick(1, 4)
+    for rep in range(reps):
+        for i, (role, fam, strict, phase) in enumerate(cells):
+            if not ctx.mine(i + rep):
+                continue
+            if time.time() > ctx.deadline(200, 1300):
+                ctx.count("cases_not_run_time_cap")
+                return
+            label = "%s_%s_%s_rekey" % (fam, "strict" if strict else "nonstrict", phase)
+            sess = None
+            for attempt in range(3):
+                cand = Session(ctx, role, family=fam, strict=strict)
+                if cand.ok:
+                    sess = cand
+                    break
+                cand.close()
+            if sess is None:
+                ctx.inconclusive("cipher cell %s: handshake failed three times" % label)
+                continue
+            try:
+                v = sess.att.victim
+                if v.remote_cipher not in CIPHER_FAMILIES[fam] or v.local_cipher not in CIPHER_FAMILIES[fam] \
+                        or negotiated_strict(sess.att.rec, role) != strict:
+                    ctx.inconclusive("cipher cell %s: negotiated %s/%s strict=%s" % (label, v.local_cipher, v.remote_cipher,
+                                                                                 negotiated_strict(sess.att.rec, role)))
+                    continue
+                if phase == "after":
+                    for k in range(ctx.rng.choice([1, 1, 2])):
+                        th = threading.Thread(target=lambda: v.renegotiate_keys(), daemon=True)
+                        before = len(sess.att.victim_msgs("in", types=(21,)))
+                        th.start()
+                        th.join(90)
+                        if th.is_alive() or not wait_until(lambda: not v.in_kex and not sess.att.att.in_kex
+                                                           and len(sess.att.victim_msgs("in", types=(21,))) > before, 60):
+                            break
+                    if v.in_kex or not v.is_active() or len(sess.att.victim_msgs("in", types=(21,))) < 2:
+                        ctx.inconclusive("cipher cell %s: re-key did not complete (victim active=%s exc=%r)"
+                                         % (label, v.is_active(), v.saved_exception))
+                        continue
+                    ctx.count("cell_rekeys_completed")
+                sess.cell = label
+                cand_types = sorted(t for t in range(256) if t not in handled_now(v))
+                import paramiko.common as pc
+
+                named = [t for t in cand_types if t in pc.MSG_NAMES]
+                chosen = ctx.rng.sample(named, 3) + ctx.rng.sample(cand_types, ctx.pick(3, 5))
+                for ptype in chosen:
+                    if not sess.usable():
+                        break
+                    kind = ctx.rng.choice(PAYLOAD_KINDS)
+                    payload = make_payload(ctx.rng, ptype, kind, False)
+                    ctx.case(("c12-cell", role, label, ptype, kind, payload),
+                             sample=dict(stratum="cipher cell", cell=label, cipher=v.local_cipher,
+                                         victim_role="server" if role == "client" else "client", type=ptype,
+                                         payload_kind=kind) if ptype == chosen[0] and fam == "gcm" and phase == "after" else None)
+                    ctx.count("cell_cases")
+                    run_case(ctx, sess, ptype, kind, payload, ptype in pc.MSG_NAMES)
+            except Exception:
+                import traceback
+
+                ctx.inconclusive("harness error in cipher cell %s: %s" % (label, traceback.format_exc()[-600:]))
+            finally:
+                sess.close()
+
+
 def run_rekey_stratum(ctx):
     n = ctx.pick(1, 4)
     for rep in range(n):
@@ -479,6 +602,12 @@ def run(ctx):
         sess.close()
     ctx.count("sessions", n_sessions)
     run_rekey_stratum(ctx)
+    run_cipher_cells(ctx)
+    for fam in ("ctr", "cbc", "gcm"):
+        for st in ("strict", "nonstrict"):
+            for ph in ("before", "after"):
+                ctx.require("cell_%s_%s_%s_rekey_seq_compared" % (fam, st, ph), 6 if ctx.quick else 24)
+    ctx.require("cell_rekeys_completed", 8)
     ctx.require("rekey_window_cases", 100 if ctx.quick else 400)
     ctx.require("rekey_window_unimplemented_ok", 80 if ctx.quick else 320)
     ctx.require("rekeys_completed", 20)
